@@ -390,10 +390,10 @@ def r2_4(ctx):
 
 
 def run(ctx):
-    r2_1(ctx)
-    r2_2(ctx)
-    r2_3(ctx)
-    r2_4(ctx)
+    ctx.do(r2_1)
+    ctx.do(r2_2)
+    ctx.do(r2_3)
+    ctx.do(r2_4)
     for k, v in NEXT_UID_WRITERS.items():
         ctx.trust(f"frozen next_uid writer: {k} - {v}")
     for k, v in COMMIT_EXEMPT.items():
